@@ -277,6 +277,17 @@ func (g *G) rolledBack(msg sdk.Msg, note string) {
 	}
 }
 
+// DoTx delivers several messages as ONE transaction (all-or-nothing) and runs the monitors on it.
+func (g *G) DoTx(note string, msgs ...sdk.Msg) chain.StepResult {
+	pre := g.Rec.State()
+	res := g.Rec.DeliverMulti(msgs)
+	it := g.Rec.Last()
+	it.Note = note
+	g.account(it, res)
+	g.Chk.Step(pre, g.Rec.State(), it, msgs)
+	return res
+}
+
 func (g *G) account(it *chain.Item, res chain.StepResult) {
 	short := ShortType(it.TypeURL)
 	c := g.Stats.Msgs[short]
